@@ -374,3 +374,39 @@ Proof.
   - intros a Ha. apply A5. apply Hsub. exact Ha.
   - intros x Hx. exact (A8 x (or_intror Hx)).
 Qed.
+
+(* LP_INIT: a fresh identity that is processed from the start *)
+Lemma Loc_fresh_proc g f e pd pr mk nx : Loc g f pd pr mk nx ->
+  Loc g (flag_set f nx 2) pd (mkWm nx e :: pr) mk (Pos.succ nx).
+Proof.
+  intros [A1 A2 A3 A4 A5 A6 A7 A8]. set (m := mkWm nx e).
+  assert (Hne : forall x, In x (pd ++ pr ++ mk) -> wm_id x <> nx).
+  { intros x Hx E. specialize (A5 x Hx). rewrite E in A5. exact (Pos.lt_irrefl _ A5). }
+  assert (Hs : fl (flag_set f nx 2) m = 2%N) by exact (fl_set_same f m 2).
+  assert (Hcases : forall x, In x (pd ++ (m :: pr) ++ mk) -> x = m \/ In x (pd ++ pr ++ mk)).
+  { intros x. rewrite !in_app_iff. cbn [In]. intros [H|[[H|H]|H]]; auto. }
+  assert (Hnpd : ~ In m pd) by (intro H; apply (Hne m ltac:(inapp)); reflexivity).
+  constructor.
+  - exact A1.
+  - cbn. constructor; [|exact A2]. intro H. apply in_map_iff in H. destruct H as [x [E Hx]]. apply (Hne x ltac:(inapp)). exact E.
+  - exact A3.
+  - intros a b Ha Hb E. destruct (Hcases a Ha) as [->|Ha'], (Hcases b Hb) as [->|Hb'].
+    + reflexivity.
+    + exfalso. apply (Hne b Hb'). rewrite <- E. reflexivity.
+    + exfalso. apply (Hne a Ha'). rewrite E. reflexivity.
+    + apply A4; assumption.
+  - intros a Ha. destruct (Hcases a Ha) as [->|Ha']; [apply Pos.lt_succ_diag_r|]. apply Pos.lt_lt_succ. apply A5. exact Ha'.
+  - intros x Hx. rewrite (fl_set_other _ _ _ _ (Hne x ltac:(inapp))). destruct (A6 x Hx) as [[H1 H2]|[H1 H2]].
+    + left. split; [exact H1|right; exact H2].
+    + right. split; [exact H1|]. intros [H|H]; [apply (Hne x ltac:(inapp)); rewrite <- H; reflexivity|apply H2; exact H].
+  - intros x [<-|Hx].
+    + right. left. split; [exact Hs|exact Hnpd].
+    + rewrite (fl_set_other _ _ _ _ (Hne x ltac:(inapp))). exact (A7 x Hx).
+  - intros x Hx. rewrite (fl_set_other _ _ _ _ (Hne x ltac:(inapp))). destruct (A8 x Hx) as [H|[H1 [H2|H2]]].
+    + left. exact H.
+    + right. split; [exact H1|left; right; exact H2].
+    + right. split; [exact H1|right; exact H2].
+Qed.
+
+Lemma Loc_empty g f nx : Loc g f [] [] [] nx.
+Proof. constructor; cbn; try constructor; intros; contradiction. Qed.
